@@ -492,16 +492,18 @@ func (t *WeightedMerkleTrie) commit(node Node, batcher storage.Batcher, collapse
 		if err != nil {
 			return nil, err
 		}
+		// (a branch that is collapsed below is saved like any other and has to be
+		// recorded too, otherwise a rollback leaves it in storage)
+		createdChan <- n.Hash()
+		if !bytes.Equal(prevHash, n.Hash()) {
+			deleteChan <- prevHash
+		}
 		if level == collapseLevel {
 			n.Children = [16]Node{}
 			return &hashNode{
 				hash:   n.Hash(),
 				weight: n.Weight(),
 			}, nil
-		}
-		createdChan <- n.Hash()
-		if !bytes.Equal(prevHash, n.Hash()) {
-			deleteChan <- prevHash
 		}
 		return n, nil
 	case *shortNode:
